@@ -424,6 +424,12 @@ def configs(tier: str):
                     out.append(cfg10(span=span, n=n, op='set', a=a, stage=stage))
                 for w in ('attr', 'label', 'slice', 'whole'):
                     out.append(cfg10(span=span, n=n, op='roundtrip', wpath=w, pos=n - 1, stage=stage))
+    # a tuple (or an empty tuple) asked for as a label on spans that do not contain it -- even if its members are labels
+    for span in ('range', 'list_str', 'nd_int'):
+        labs3 = _labels(cfg10(span=span, n=3), SymSrc())
+        for a in ((labs3[0], labs3[2]), (labs3[1],), ()):
+            out.append(cfg10(span=span, n=3, op='get', a=a))
+            out.append(cfg10(span=span, n=3, op='set', a=a))
     # None asked for as a LABEL on spans that do not contain it: an absent label like any other (KeyError), for get and set
     for span in ('range', 'nd_int', 'list_str', 'list_mixed'):
         for n in (1, 3):
